@@ -118,7 +118,8 @@ def check_shape(t, shape, rot=0, only=None, extras=True, kind="node"):
     idm = tree.IdMap(nodes)
     # custom functions, options, indent: verbatim
     # identifiers are the user's business: whatever nodenamefunc returns (quotes, backslashes, blanks) appears verbatim
-    nm = lambda v: ("id%d", 'i"d%d', "i\\d%d", "i d%d", "id%d")[v % 5] % v  # noqa
+    # (several nodes may get the SAME identifier from the user's function: every admitted node still gets its line)
+    nm = lambda v: ("id%d", 'i"d%d', "i\\d%d", "i d%d", "id%d")[v % 5] % (v if v < 3 else v % 2)  # noqa
     namef = lambda nd: nm(idm(nd))  # noqa
     # an empty string is a legal result (a node declared by its identifier only) and must appear verbatim
     nodef = lambda nd: ('("%s")' % nd.name) if idm(nd) % 3 else ""  # noqa
@@ -181,17 +182,19 @@ def check_shape(t, shape, rot=0, only=None, extras=True, kind="node"):
             t.violation("C13: indent is not a plain prefix of blank / multi-line options and function results",
                         dict(ctx, engine="E2", module=MOD, custom=True, indent=ind_n, start=0, names=names, expected=exp + exp_edges,
                              observed=lines, stop=[], filtered_out=[], maxlevel=None))
-    # to_file fence
-    e = MermaidExporter(nodes[0])
-    with tempfile.TemporaryDirectory(prefix="verif-c13-") as d:
-        fn = os.path.join(d, "t.md")
-        e.to_file(fn)
-        with open(fn, encoding="utf-8") as f:
-            text = f.read()
-    if text != "```mermaid\n" + "".join(l + "\n" for l in list(MermaidExporter(nodes[0]))) + "```":
-        t.violation("C13: to_file does not wrap the same lines in a mermaid fence",
-                    dict(ctx, engine="E2", module=MOD, names=names, observed=text, start=0, stop=[], filtered_out=[], maxlevel=None))
-    t.c["evaluations"] += 1
+    # to_file fence: exactly the lines of the iteration (also lines that are blank or end in blanks / tabs)
+    for kw in ({}, {"indent": 2, "options": ["", "%% trailing blanks  ", "\t"], "nodefunc": lambda nd: '["%s"] ' % nd.name, "name": ""}):
+        e = MermaidExporter(nodes[0], **kw)
+        with tempfile.TemporaryDirectory(prefix="verif-c13-") as d:
+            fn = os.path.join(d, "t.md")
+            e.to_file(fn)
+            with open(fn, encoding="utf-8", newline="") as f:
+                text = f.read()
+        if text != "```mermaid\n" + "".join(l + "\n" for l in list(MermaidExporter(nodes[0], **kw))) + "```":
+            t.violation("C13: to_file does not wrap the same lines in a mermaid fence",
+                        dict(ctx, engine="E2", module=MOD, names=names, observed=text, start=0, stop=[], filtered_out=[], maxlevel=None,
+                             to_file_options=sorted(kw)))
+        t.c["evaluations"] += 1
     # esc
     for a in NAMES + ['\\\\"', '"\\', "\\\\", '""']:
         enc = MermaidExporter.esc(a)
